@@ -3,7 +3,7 @@
 Correspondence: the real TaskManager / core.run_once / core.run driven under a virtual clock
 (bacpypes.task._time replaced) against the Gallina model coq/theories/Sched.v + Deferred.v,
 and the direct, implementation-only predicate (a bookkeeping reference of what is pending)."""
-import itertools, logging, signal
+import itertools, logging, signal, sys
 from fractions import Fraction as F
 from core import Case
 
@@ -32,6 +32,12 @@ TICKS_PER_S = 3 * 10 ** 6        # family B: 1 tick = 1/3 us, so 1/3 s and 0.1 s
 JIT_B = 3
 
 
+def acts_of(x):
+    """scheduling actions of a task config (kind, raises, defers[, acts]) or of a deferred function
+    (id, raises, spawns[, acts])"""
+    return x[3] if len(x) > 3 else ()
+
+
 # ------------------------------------------------------------------ pure-python port of the model
 class Ref:
     """Port of Sched.v used by the generators (exact clock / margins) and as a fast pre-check."""
@@ -44,6 +50,27 @@ class Ref:
 
     def kind(self, i):
         return self.cfg[i][0]
+
+    LIMIT = 32              # iterations beyond the due entries before a loop is called a livelock (model slack: 64)
+    livelock = False
+
+    def do_act(self, a):
+        k = a[0]
+        if k == 'install': return self.install_when(a[1], a[2])
+        if k == 'after': return self.install_when(a[1], self.now + a[2])
+        if k == 'reinstall': return self.reinstall(a[1])
+        if k == 'suspend': self.tm_suspend(a[1]); return None
+        if k == 'resume': return self.tm_install(a[1])
+        raise ValueError(a)
+
+    def run_acts(self, acts):
+        for a in acts:
+            if self.do_act(a) is not None:
+                return True
+        return False
+
+    def due_count(self):
+        return sum(1 for e in self.heap if e[0] <= self.now)
 
     def tm_suspend(self, i):
         for k, e in enumerate(self.heap):
@@ -99,7 +126,8 @@ class Ref:
         k = self.cfg[i]
         self.dq = self.dq + list(k[2])
         self.ev.append(('fire', i, e[0], self.now))
-        if k[1]:
+        failed = self.run_acts(acts_of(k))
+        if failed or k[1]:
             return True
         if k[0][0] == 'rec':
             return self.rec_install(i) is not None
@@ -111,7 +139,8 @@ class Ref:
             for d in b:
                 self.ev.append(('call', d[0]))
                 self.dq = self.dq + list(d[2])
-                if d[1]:
+                failed = self.run_acts(acts_of(d))
+                if d[1] or failed:
                     self.ev.append(('raise',))
                     if not self.guard:
                         return True
@@ -119,7 +148,12 @@ class Ref:
 
     def run_once(self):
         zero = True
+        budget = self.due_count() + 1 + self.LIMIT
         while zero:
+            budget -= 1
+            if budget < 0:
+                self.livelock = True
+                return
             e, zero = self.get_next()
             if e is not None and self.process(e):
                 self.ev.append(('raise',)); return
@@ -130,7 +164,12 @@ class Ref:
         return not self.dq and (not self.heap or self.heap[0][0] > self.now)
 
     def run(self):
+        budget = 2 * self.due_count() + 2 + self.LIMIT
         while not self.quiescent():
+            budget -= 1
+            if budget < 0:
+                self.livelock = True
+                return
             e, _ = self.get_next()
             if e is not None and self.process(e):
                 self.ev.append(('raise',)); continue
@@ -139,11 +178,7 @@ class Ref:
     def step(self, o):
         k = o[0]
         err = None
-        if k == 'install': err = self.install_when(o[1], o[2])
-        elif k == 'after': err = self.install_when(o[1], self.now + o[2])
-        elif k == 'reinstall': err = self.reinstall(o[1])
-        elif k == 'suspend': self.tm_suspend(o[1])
-        elif k == 'resume': err = self.tm_install(o[1])
+        if k in ('install', 'after', 'reinstall', 'suspend', 'resume'): err = self.do_act(o)
         elif k == 'advance': self.now += o[1]
         elif k == 'todue':
             if self.heap: self.now = max(self.now, self.heap[0][0])
@@ -258,7 +293,8 @@ class Impl:
 
         self.cfg = cfg
         self.tasks = []
-        for i, (kind, raises, defers) in enumerate(cfg):
+        for i, t in enumerate(cfg):
+            kind = t[0]
             if kind[0] == 'rec':
                 # interval / offset are handed over in milliseconds, as floats
                 iv_ms = float(F(kind[1] * 1000, self.ticks_per_s))
@@ -270,7 +306,9 @@ class Impl:
     ticks_per_s = TICKS_PER_S
 
     def clock(self):
-        if self.in_run:
+        # core.run is stopped at the top of an iteration only (the read made by get_next_task), never by the
+        # reads a callback makes through get_time()
+        if self.in_run and sys._getframe(1).f_code.co_name == 'get_next_task':
             core = self.core
             tm = self.tm
             if not core.deferredFns and (not tm.tasks or tm.tasks[0][0] > self.NOW[0]):
@@ -281,8 +319,26 @@ class Impl:
         self.trace.append(('fire', t.i, t.taskTime, self.NOW[0]))
         for d in self.cfg[t.i][2]:
             self.submit(d)
+        self.do_acts(acts_of(self.cfg[t.i]))
         if self.cfg[t.i][1]:
             raise Boom('task %d' % t.i)
+
+    def do_acts(self, acts):
+        """the scheduling actions of a callback, through the _Task API; an exception propagates"""
+        T = self.tasks
+        for a in acts:
+            k, j = a[0], a[1]
+            try:
+                if k == 'install': T[j].install_task(when=self.tf(a[2]))
+                elif k == 'after': T[j].install_task(delta=self.tf(a[2]))
+                elif k == 'reinstall': T[j].install_task()
+                elif k == 'suspend': T[j].suspend_task()
+                elif k == 'resume': T[j].resume_task()
+                else: raise ValueError(a)
+            except Exception:
+                self.trace.append(('act', k, j, False, None))
+                raise
+            self.trace.append(('act', k, j, True, T[j].taskTime))
 
     def submit(self, d):
         self.submitted.append(d[0])
@@ -292,6 +348,7 @@ class Impl:
         self.trace.append(('call', d[0]))
         for s in d[2]:
             self.submit(s)
+        self.do_acts(acts_of(d))
         if d[1]:
             raise Boom('deferred %d' % d[0])
 
@@ -351,7 +408,7 @@ class Impl:
 
 
 def canon_outcome(trace, heap, ctr, now, tasks, dqids, ct, showclock):
-    out = [len(trace)]
+    out = [sum(1 for e in trace if e[0] != 'act')]
     for e in trace:
         if e[0] == 'fire': out += [1, e[1], ct(e[1], e[2], 'due'), ct(e[1], e[3], 'at', e[2])]
         elif e[0] == 'call': out += [2, e[1]]
@@ -433,15 +490,30 @@ def zc(x):
     return '(%d)' % x if x < 0 else str(x)
 
 
+def coq_act(a):
+    k = a[0]
+    if k == 'install': return 'AInstall %d %s' % (a[1], zc(a[2]))
+    if k == 'after': return 'AInstallAfter %d %s' % (a[1], zc(a[2]))
+    if k == 'reinstall': return 'AReinstall %d' % a[1]
+    if k == 'suspend': return 'ASuspend %d' % a[1]
+    if k == 'resume': return 'AResume %d' % a[1]
+    raise ValueError(a)
+
+
+def coq_acts(acts):
+    return '[' + ';'.join(coq_act(a) for a in acts) + ']'
+
+
 def coq_dfn(d):
-    return '(DF %d %s [%s])' % (d[0], 'true' if d[1] else 'false', ';'.join(coq_dfn(s) for s in d[2]))
+    return '(DF %d %s [%s] %s)' % (d[0], 'true' if d[1] else 'false', ';'.join(coq_dfn(s) for s in d[2]), coq_acts(acts_of(d)))
 
 
 def coq_cfg(cfg):
     ts = []
-    for kind, raises, defers in cfg:
+    for t in cfg:
+        kind, raises, defers = t[0], t[1], t[2]
         k = 'OneShot' if kind[0] == 'one' else '(Recurring %s %s)' % (zc(kind[1]), zc(kind[2]))
-        ts.append('mkT %s %s [%s]' % (k, 'true' if raises else 'false', ';'.join(coq_dfn(d) for d in defers)))
+        ts.append('mkT %s %s [%s] %s' % (k, 'true' if raises else 'false', ';'.join(coq_dfn(d) for d in defers), coq_acts(acts_of(t))))
     return '[' + ';'.join(ts) + ']'
 
 
@@ -516,7 +588,7 @@ def mk_packed_case(kind, cfg, prefix, alpha, mode, jit):
     coq = 'flat_map (fun o => canon_run tc_id true %d (run_ops true %s %s st0 (%s ++ o :: %s))) %s' % (
         len(cfg), zc(jit), coq_cfg(cfg), coq_ops(prefix), coq_ops(FLUSH), coq_ops(alpha))
     return Case(kind, coq, exp, key=(repr(cfg), repr(prefix), 'packed'), nontrivial=True,
-                desc={'cfg': repr(cfg), 'prefix': repr(prefix), 'mode': mode, 'packed_over': 'alphabet'})
+                desc={'cfg': repr(cfg), 'prefix': repr(prefix), 'mode': mode, 'packed_over': 'alphabet', 'letters': repr(list(alpha))})
 
 
 # ------------------------------------------------------------------ generators
@@ -609,7 +681,7 @@ def boundary_safe(cfg, t, owner=None):
     return True
 
 
-def gen_recurring(rng, epoch, nops=30):
+def gen_recurring(rng, epoch, nops=30, with_acts=False):
     """recurring-task history with the exact clock tracked by Ref; returns (cfg, ops) or None when a
     clock reading would come within MARGIN of another pending due time (floats could then order
     differently from exact arithmetic: not part of what is compared)"""
@@ -623,7 +695,12 @@ def gen_recurring(rng, epoch, nops=30):
         assert iv.denominator == 1
         iv = int(iv)
         off = rng.choice([0, 0, iv // 3, iv // 2, iv - 3000, rng.randrange(iv)])
-        cfg.append((('rec', iv, off), rng.random() < 0.1, ()))
+        acts = ()
+        if with_acts and rng.random() < 0.7:
+            acts = tuple(rng.choice([('suspend', i), ('suspend', i), ('reinstall', i), ('suspend', rng.randrange(nt)),
+                                     ('resume', rng.randrange(nt)), ('reinstall', rng.randrange(nt))])
+                         for _ in range(rng.choice([1, 1, 2])))
+        cfg.append((('rec', iv, off), rng.random() < 0.1, (), acts))
     base = rng.choice(BASES_EPOCH if epoch else BASES_SMALL) * TICKS_PER_S + rng.randrange(TICKS_PER_S)
     ref = Ref(cfg, JIT_B)
     ops = []
@@ -699,6 +776,168 @@ def deferred_cases(tier):
     return out
 
 
+# ---- (C) callbacks with scheduling actions
+def act_alphabet(nt):
+    a = []
+    for j in range(nt):
+        a += [('install', j, 1), ('install', j, 3), ('after', j, 0), ('after', j, 1), ('reinstall', j), ('suspend', j), ('resume', j)]
+    return a
+
+
+def livelocks(cfg, ops, jit=1):
+    r = Ref(cfg, jit)
+    for o in ops:
+        r.step(o)
+        if r.livelock:
+            return True
+    return False
+
+
+def mk_packed_case_f(kind, cfg, prefix, alpha, jit=1):
+    """like mk_packed_case, letters whose history would spin (callbacks re-installing due tasks for ever) left out"""
+    letters = [o for o in alpha if not livelocks(cfg, list(prefix) + [o] + FLUSH, jit)]
+    if not letters:
+        return None
+    return mk_packed_case(kind, cfg, prefix, letters, 'int', jit)
+
+
+def random_acts(rng, nt, pmax=2, relnow=None):
+    n = rng.choice([0, 0, 1, 1, 2][:pmax + 3])
+    return tuple(rng.choice(act_alphabet(nt)) for _ in range(n))
+
+
+def gen_dfn_forest_acts(rng, nmax, nextid, nt):
+    def deco(d):
+        acts = random_acts(rng, nt) if rng.random() < 0.4 else ()
+        return (d[0], d[1], tuple(deco(c) for c in d[2]), acts)
+    return [deco(d) for d in gen_dfn_forest(rng, nmax, nextid)]
+
+
+def random_history_C(rng, length=60):
+    nt = rng.choice([2, 3, 4])
+    nextid = [0]
+    cfg = []
+    for i in range(nt):
+        defers = tuple(gen_dfn_forest_acts(rng, 2, nextid, nt)) if rng.random() < 0.3 else ()
+        cfg.append((('one',), rng.random() < 0.15, defers, random_acts(rng, nt) if rng.random() < 0.7 else ()))
+    for _ in range(20):
+        ops = []
+        for _ in range(length):
+            r = rng.random()
+            i = rng.randrange(nt)
+            if r < 0.25: ops.append(('install', i, rng.randrange(0, 12)))
+            elif r < 0.35: ops.append(('after', i, rng.choice([0, 1, 1, 2])))
+            elif r < 0.40: ops.append(('reinstall', i))
+            elif r < 0.46: ops.append(('suspend', i))
+            elif r < 0.50: ops.append(('resume', i))
+            elif r < 0.68: ops.append(('advance', rng.choice([0, 1, 1, 2])))
+            elif r < 0.72: ops.append(('todue',))
+            elif r < 0.84: ops.append(('poll',))
+            elif r < 0.88: ops.append(('defer', gen_dfn_forest_acts(rng, 2, nextid, nt)[0]))
+            elif r < 0.96: ops.append(('runonce',))
+            else: ops.append(('run',))
+        ops += [('advance', 30), ('runonce',), ('poll',)]
+        if not livelocks(cfg, ops):
+            return cfg, ops
+    return None
+
+
+def gen_recurring_acts(rng, epoch):
+    """recurring tasks whose callbacks suspend / re-install themselves or each other"""
+    for _ in range(50):
+        g = gen_recurring(rng, epoch, nops=20, with_acts=True)
+        if g is not None and not livelocks(g[0], g[1], JIT_B):
+            return g
+    return None
+
+
+# ---- (S) symmetry-reduced exhaustive exploration
+def rel_alphabet(nt):
+    a = []
+    for i in range(nt):
+        a += [('rel', i, 1), ('rel', i, 2), ('after', i, 1), ('reinstall', i), ('suspend', i), ('resume', i)]
+    return a + [('advance', 1), ('poll',), ('runonce',)]
+
+
+def resolve_rel(seq):
+    """'rel' letters (install_task(when=now+d)) become absolute installs; the clock only moves by 'advance 1'"""
+    out, clock = [], 0
+    for o in seq:
+        if o[0] == 'rel':
+            out.append(('install', o[1], clock + o[2]))
+        else:
+            out.append(o)
+            if o[0] == 'advance':
+                clock += o[1]
+    return out
+
+
+def impl_state_key(im):
+    """the whole state of the implementation (heap ARRAY as laid out, counters, flags, task times, clock, deferred
+    queue) up to task renaming (within a config class), time translation and order-preserving counter renaming"""
+    now = im.NOW[0]
+    arr = [(w, n, t.i) for (w, n, t) in im.tm.tasks]
+    ranks = {n: k for k, n in enumerate(sorted(n for (_, n, _) in arr))}
+    pos = {i: (k, ranks[n], w - now) for k, (w, n, i) in enumerate(arr)}
+    sig = []
+    for t in im.tasks:
+        tt = None if t.taskTime is None else t.taskTime - now
+        sig.append((repr(im.cfg[t.i]), tt is None, tt or 0, t.isScheduled, pos.get(t.i, (-1, -1, 0))))
+    return (tuple(sorted(sig)), tuple(im.pending_ids()))
+
+
+def explore(cfg, depth, reps=1):
+    """breadth-first over the implementation's own states; returns {state key: [representative histories]}
+    for every state reachable by <= depth letters"""
+    alpha = rel_alphabet(len(cfg))
+
+    def run(seq):
+        im = Impl(cfg, float)
+        for o in resolve_rel(seq):
+            im.step(o)
+        return im
+    seen = {impl_state_key(run(())): [()]}
+    frontier = [()]
+    for d in range(depth):
+        nxt = []
+        for seq in frontier:
+            for o in alpha:
+                s2 = seq + (o,)
+                k = impl_state_key(run(s2))
+                if k not in seen:
+                    seen[k] = [s2]
+                    nxt.append(s2)
+                elif len(seen[k]) < reps and len(s2) > len(seen[k][0]):
+                    seen[k].append(s2)          # a second, longer way into the same state
+        frontier = nxt
+    return seen
+
+
+def symmetric_cases(cfg, depth, kind, reps=1):
+    """one packed case per (state, representative): the representative history followed by every letter"""
+    out = []
+    alpha = rel_alphabet(len(cfg))
+    states = explore(cfg, depth, reps)
+    for key, seqs in states.items():
+        for seq in seqs:
+            exp = []
+            coq_parts = []
+            for o in alpha:
+                ops = resolve_rel(list(seq) + [o]) + FLUSH
+                e, _ = impl_outcome(cfg, ops, 'int')
+                exp += e
+                coq_parts.append(coq_ops(ops))
+            coq = 'flat_map (fun ops => canon_run tc_id true %d (run_ops true 1 %s st0 ops)) [%s]' % (
+                len(cfg), coq_cfg(cfg), ';'.join(coq_parts))
+            out.append(Case(kind, coq, exp, key=(repr(cfg), repr(seq), 'sym'), nontrivial=True,
+                            desc={'cfg': repr(cfg), 'prefix': repr(resolve_rel(seq)), 'mode': 'int', 'packed_over': 'rel-alphabet',
+                                  'letters': repr(alpha)}))
+    return out, len(states)
+
+
+EXHAUSTIVE_NOTE = {}
+
+
 def cases(rng, tier):
     HANGS[0] = 0
     out = []
@@ -724,6 +963,46 @@ def cases(rng, tier):
             if L == 3 and rng.random() >= 0.3:
                 continue
             out.append(mk_packed_case('A-exhaustive-raising', cfg3, prefix, alpha3, 'int', 1))
+    # (S) symmetry-reduced exhaustive exploration: every history of <= depth+1 letters over 4 one-shot tasks and the
+    # 27-letter relative alphabet, one representative per implementation state (see impl_state_key)
+    plain4 = [ONE, ONE, ONE, ONE]
+    d4 = 6 if not big else 8
+    cs, n4 = symmetric_cases(plain4, d4, 'S-symmetric-4tasks', reps=1 if not big else 2)
+    out += cs
+    mixed3 = [ONE, (('one',), True, ()), ONE, (('one',), False, (), (('suspend', 0),))]
+    d3 = 4 if not big else 6
+    cs, n3 = symmetric_cases(mixed3, d3, 'S-symmetric-raising+acting', reps=1)
+    out += cs
+    EXHAUSTIVE_NOTE['S'] = ('every history of length <= %d over 4 interchangeable one-shot tasks and the 27 letters {install_task(when=now+1|now+2), '
+                            'install_task(delta=1), install_task(), suspend, resume} x task + {advance 1, poll, run_once}, followed by a flush, '
+                            'explored breadth-first on the IMPLEMENTATION: %d distinct states (heap array layout, counters up to order, flags, '
+                            'task times relative to the clock, up to task renaming) each extended by all 27 letters; the same to length %d over '
+                            '{plain, raising, plain, plain-with-callback-suspending-task-0}: %d states x 27 letters' % (d4 + 1, n4, d3 + 1, n3))
+    # (C) callbacks that install / re-install / suspend / resume themselves or the other task
+    alpha2 = alphabet(2)
+    single = [()] + [(a,) for a in act_alphabet(2)]
+    preludes = [(), (('install', 0, 1), ('install', 1, 1)), (('install', 1, 1), ('install', 0, 1)), (('install', 0, 1), ('install', 1, 2)),
+                (('install', 0, 2), ('install', 1, 1))] + [(o,) for o in alpha2]
+    for a0 in single:
+        for a1 in single:
+            if not a0 and not a1:
+                continue
+            cfgc = [(('one',), False, (), a0), (('one',), False, (), a1)]
+            for pre in preludes:
+                if not big and len(pre) == 1 and rng.random() >= 0.08:
+                    continue
+                c = mk_packed_case_f('C-callback-actions', cfgc, pre, alpha2)
+                if c is not None:
+                    out.append(c)
+    for _ in range(150 if not big else 1500):
+        g = random_history_C(rng)
+        if g is not None:
+            out.append(mk_case('C-random-60', g[0], g[1], 'int', 1))
+    for epoch, mode in ((False, 'tick'), (True, 'slot')):
+        for _ in range(80 if not big else 800):
+            g = gen_recurring_acts(rng, epoch)
+            if g is not None:
+                out.append(mk_case('C-recurring-actions', g[0], g[1], mode, JIT_B))
     # (A) random long histories
     for _ in range(40 if tier != 'thorough' else 600):
         cfg, ops = random_history_A(rng)
@@ -1014,8 +1293,8 @@ def _direct(rng, tier, focus, fails, stats, samples):
                 fails.append({'kind': 'direct-crash-on-focus', 'exc': repr(e)[:200], 'cfg': d['cfg'], 'ops': d['ops']})
         elif isinstance(d, dict) and 'prefix' in d:
             cfg = ast.literal_eval(d['cfg'])
-            for o in alphabet(len(cfg)):
-                check_history(cfg, list(ast.literal_eval(d['prefix'])) + [o] + FLUSH, 'int', fails, stats)
+            for ops in packed_histories(d):
+                check_history(cfg, ops, 'int', fails, stats)
 
 
 def _has_raising_before_other(cfg, ops):
@@ -1028,6 +1307,20 @@ def _has_raising_before_other(cfg, ops):
             yield from walk(d[2])
     fns = list(walk([o[1] for o in ops if o[0] == 'defer'])) + [d for k in cfg for d in walk(k[2])]
     return any(d[1] for d in fns) and len(fns) >= 2
+
+
+def packed_histories(d):
+    """the histories a packed case stands for (desc of mk_packed_case / symmetric_cases)"""
+    import ast
+    prefix = list(ast.literal_eval(d['prefix']))
+    letters = ast.literal_eval(d['letters']) if 'letters' in d else alphabet(len(ast.literal_eval(d['cfg'])))
+    clock = sum(o[1] for o in prefix if o[0] == 'advance')
+    out = []
+    for o in letters:
+        if o[0] == 'rel':
+            o = ('install', o[1], clock + o[2])
+        out.append(prefix + [o] + FLUSH)
+    return out
 
 
 def classify(failure):
